@@ -225,7 +225,7 @@ def lean_list(items, per_line=4, indent="    "):
     return "[" + (",\n" + indent).join(lines) + "]"
 
 
-CONST_PREFIXES = ("OFPET_", "OFPBRC_", "OFPBAC_", "OFPFMFC_", "OFPPMFC_", "OFPQOFC_", "OFPP_", "OFPPC_", "OFPPS_", "OFPFF_", "OFPFC_",
+CONST_PREFIXES = ("OFPET_", "OFPHFC_", "OFPBRC_", "OFPBAC_", "OFPFMFC_", "OFPPMFC_", "OFPQOFC_", "OFPP_", "OFPPC_", "OFPPS_", "OFPFF_", "OFPFC_",
                   "OFPRR_", "OFPPR_", "OFPR_", "OFPC_FRAG_")
 CONST_NAMES = ("OFPQ_ALL", "TABLE_ALL", "NO_BUFFER", "OFPFW_ALL", "OFPPF_10MB_HD")
 
